@@ -679,6 +679,8 @@ def float_family(ck):
                         l.append(near_id() if r < 0.65 else generic(2)); k += 1
                 layers.append(l)
             psi = rng.normal(size=2 ** n) + 1j * rng.normal(size=2 ** n)
+            if rep % 2:       # a vector of tiny norm: the result is linear in the input, so it is tiny too -- and still complex
+                psi = psi * complex(1e-20, 2e-20)
             items = []
             for l in layers:
                 q, j = 0, 0
@@ -691,7 +693,7 @@ def float_family(ck):
                     else:
                         items.append((e, [q])); q += 1; j += 1
             ref = apply_ref(items, psi.astype(complex), n)
-            tol = 1e-12 * max(1.0, float(np.abs(ref).max()))
+            tol = 1e-12 * (max(1.0, float(np.abs(ref).max())) if rep % 2 == 0 else float(np.abs(ref).max()))      # relative to the result's size for tiny inputs
             runs = [("StandardBackend", lambda: StandardBackend(n).statevector(copy.deepcopy(layers), psi.copy())),
                     ("BackendForOnes", lambda: BackendForOnes(n).statevector(copy.deepcopy(layers), psi.copy())),
                     ("BinaryBackend", lambda: BinaryBackend(n).statevector([[np.asarray(M, complex), list(q)] for M, q in items], psi.copy()))]
